@@ -22,9 +22,9 @@ Ent(x) == [i \in DOMAIN x |-> [k |-> x[i][1], s |-> x[i][2]]]
 Say(tag, a, b, c, d) == PrintT(<<tag, l, a, b, c, d>>)
 
 (* smallest explanation of a sender-side choice by defect branches of Dispatch.tla *)
-Single(kind, got)   == {D \in {{d} : d \in AllDefects} : got \in ClosedOutcomes(tapi, tregs, kind, D)}
+Single(kind, got)   == {D \in {{d} : d \in SenderDefects} : got \in ClosedOutcomes(tapi, tregs, kind, D)}
 Explains(kind, got) == IF Single(kind, got) # {} THEN Single(kind, got)
-                       ELSE {D \in SUBSET AllDefects : got \in ClosedOutcomes(tapi, tregs, kind, D)}
+                       ELSE {D \in SUBSET SenderDefects : got \in ClosedOutcomes(tapi, tregs, kind, D)}
 Smallest(S) == CHOOSE D \in S : \A E \in S : Cardinality(D) <= Cardinality(E)
 
 (* --- Config.Serializer(msg): the same documented rule over the configuration alone ------------- *)
@@ -71,6 +71,7 @@ JudgeSend(e) ==
      ELSE IF e.dec /\ e.rcv = got /\ e.eq THEN TRUE
      ELSE IF collide /\ (~e.dec \/ ~e.eq) THEN Say("KNOWN", "TypeNameCollision", kind, got, e.rcvType)
      ELSE IF e.dec /\ e.rcv = got /\ got = "CBOR" /\ e.cls = "timens" THEN Say("KNOWN", "CBORTimePrecision", kind, got, e.cls)
+     ELSE IF e.dec /\ kind = "mInt" /\ {e.rcv, got} = {"CBOR", "JSON"} THEN Say("KNOWN", "EnvelopeCodecAmbiguity", kind, got, e.rcv)
      ELSE IF ~e.dec THEN Say("MISMATCH", "decode-failed", kind, got, e.cls)
      ELSE IF e.rcv # got THEN Say("MISMATCH", "decoded-by-other-codec", kind, got, e.rcv)
      ELSE Say("MISMATCH", "round-trip-differs", kind, got, e.cls)
@@ -85,7 +86,7 @@ ConfSend(e) ==
       g == tc.g
   IN
   /\ IF got = Resolve(tsnd, e.kind, CodeDefects) THEN TRUE ELSE Say("DRIFT", "resolve", e.kind, Resolve(tsnd, e.kind, CodeDefects), got)
-  /\ IF ~e.enc \/ e.rcvPanic \/ (e.kind \in {"mEvt1", "mEvt2"} /\ ~e.dec) THEN TRUE   \* colliding names: decode may also fail
+  /\ IF ~e.enc \/ e.rcvPanic \/ (e.kind \in {"mEvt1", "mEvt2"} /\ ~e.dec) \/ e.kind = "mInt" THEN TRUE   \* colliding names: decode may also fail; primitives: value dependent
      ELSE IF e.rcv = Decode(trcv, Frame(got, e.kind), g, CodeDefects) THEN TRUE
      ELSE Say("DRIFT", "decode", e.kind, Decode(trcv, Frame(got, e.kind), g, CodeDefects), e.rcv)
 
